@@ -147,6 +147,11 @@ func (db *DB) openMemTable(fid, flags int) (*memTable, error) {
 func (db *DB) newMemTable() (*memTable, error) {
 	mt, err := db.openMemTable(db.nextMemFid, os.O_CREATE|os.O_RDWR)
 	if err == z.NewFile {
+		// Make the directory entry of the new WAL durable: z.OpenMmapFile does not sync the
+		// directory for files it sizes, and writes acknowledged under SyncWrites live here.
+		if serr := db.syncDir(db.opt.Dir); serr != nil {
+			return nil, y.Wrapf(serr, "newMemTable")
+		}
 		db.nextMemFid++
 		return mt, nil
 	}
